@@ -241,7 +241,8 @@ def run(rep, tier, seed):
     for n in range(1, 6 if tier == "thorough" else 5):
         for edges in all_dags(n):
             if n == 5:
-                combos = [("some", 0, ("emu", 7))]
+                combos = [("some", 0, ("emu", 7)), ("none", 1, ("a", 0)),
+                          ("all", 0, ("a", 3))]
             else:
                 combos = [(dm, vm, nc) for dm in ("none", "some", "all")
                           for vm in (0, 1)
